@@ -188,9 +188,9 @@ class GenericCallAdapter(Adapter):
                 )
 
         old_node_kwargs = {kw.arg: kw.value for kw in old_node.keywords}
+        old_node_kwarg_names = [kw.arg for kw in old_node.keywords]
 
         to_insert = []
-        insert_pos = 0
         for key, new_value_element in new_kwargs.items():
             if new_value_element.is_default:
                 continue
@@ -208,6 +208,9 @@ class GenericCallAdapter(Adapter):
                 ).assign(old_value_element, node, new_value_element.value)
 
                 if to_insert:
+                    # the position is the position of this keyword in the source,
+                    # which does not depend on other arguments which are deleted
+                    insert_pos = len(old_node.args) + old_node_kwarg_names.index(key)
                     for key, value in to_insert:
 
                         yield CallArg(
@@ -221,8 +224,6 @@ class GenericCallAdapter(Adapter):
                         )
                     to_insert = []
 
-                insert_pos += 1
-
         if to_insert:
 
             for key, value in to_insert:
@@ -231,7 +232,7 @@ class GenericCallAdapter(Adapter):
                     flag="fix",
                     file=self.context.file._source,
                     node=old_node,
-                    arg_pos=insert_pos,
+                    arg_pos=None,
                     arg_name=key,
                     new_code=self.context.file._value_to_code(value),
                     new_value=value,
